@@ -22,9 +22,10 @@ INV_C07 = ['TypeOK', 'FifoOnce', 'NormalOrder', 'DropsCounted', 'Bounded', 'Batc
            'SendScheduled']
 
 
-def consts_for(rm, maxitems, maxconn, posttake=True):
+def consts_for(rm, maxitems, maxconn, posttake=True, removal_releases=True):
   c = dict(rm.consts)
-  c.update(PostTake='TRUE' if posttake else 'FALSE', MaxItems=maxitems, MaxConnEvents=maxconn)
+  c.update(PostTake='TRUE' if posttake else 'FALSE', MaxItems=maxitems, MaxConnEvents=maxconn,
+           RemovalReleases='TRUE' if removal_releases else 'FALSE')
   return c
 
 
@@ -190,6 +191,32 @@ def run_traces(ctx, rm, cfg, nsim, nrandom, nevents, seed_base, maxitems=6, maxc
       traces.append(tr)
       origins.append(dict(kind='replayed TLC behaviour', cfg=cfg, script=[list(x) for x in sc], skipped=skipped, directed='all destinations down, then one returns'))
       ctx.evaluations += 1
+  if cfg.get('dynamic') and nd >= 2:
+    # directed: every queue is full behind paused transports (receivers paused); one destination is lost and removed by the
+    # dynamic router while it is "full"; the survivors drain completely: the receivers must be listening again
+    mr = cfg.get('max_retries', 1)
+    hard = int(cfg['maxq'] * cfg.get('hard_pct', 1.25)) + 1
+    for lost in (1, nd):
+      sc = [('RConnect', c) for c in range(1, cfg.get('nr', 1) + 1)]
+      sc += [('ConnMade', d) for d in range(1, nd + 1)] + [('TPause', d) for d in range(1, nd + 1)]
+      sc += [('Arrive', 0)] * (hard * nd * 2)
+      sc += [('ConnLost', lost)]
+      for r in range(mr):
+        sc += [('RetryTimer', lost), ('ConnFailed', lost)]
+      sc += [('TResume', d) for d in range(1, nd + 1) if d != lost]
+      tr, skipped = relaysys.scripted_run(rm, cfg, sc, settle=True, max_settle=400)
+      traces.append(tr)
+      origins.append(dict(kind='replayed TLC behaviour', cfg=cfg, script=[list(x) for x in sc], skipped=skipped, directed='a full destination is removed, the others drain'))
+      ctx.evaluations += 1
+  if cfg.get('dynamic') and nd >= 2 and cfg.get('flow', True):
+    # directed (adaptive): ONE destination is full behind a paused transport while the others keep flowing; it is lost and
+    # removed by the dynamic router; nothing but its retries is left to happen: the receivers must be listening (F18)
+    for victim in (1, nd):
+      for drain_first in (True, False):
+        tr, sc = relaysys.full_then_removed_run(rm, cfg, victim, drain_first)
+        traces.append(tr)
+        origins.append(dict(kind='replayed TLC behaviour', cfg=cfg, script=[list(x) for x in sc], skipped=[], settle=False, directed='one full destination is removed'))
+        ctx.evaluations += 1
   for k in range(nrandom):
     seed = ctx.rng.randrange(1 << 30)
     rr = random.Random(seed)
@@ -214,5 +241,5 @@ def rerun(rm, origin):
   if origin['kind'] == 'random history':
     return relaysys.random_run(rm, cfg, random.Random(origin['rseed']), origin['nevents'], settle=True,
                                weights=origin['weights'])
-  tr, skipped = relaysys.scripted_run(rm, cfg, [tuple(x) for x in origin['script']], settle=True)
+  tr, skipped = relaysys.scripted_run(rm, cfg, [tuple(x) for x in origin['script']], settle=origin.get('settle', True))
   return tr
